@@ -15,6 +15,8 @@ for d in sorted(glob.glob('/verif/seeded/*')):
     fv = m.get('first_verdict') or ''
     if (hist.startswith('MISSED') or fv.startswith('MISSED')) and v == 'CAUGHT':
         v = 'MISSED at first, CAUGHT after strengthening'
+    if m.get('disposition') and v != 'CAUGHT':
+        v = 'NOT CAUGHT, by design (see disposition in meta.json)'
     cut = lambda x, n: (x[:n] + '…') if len(x) > n else x
     print("| %s | %s | %s | %s | %s |" % (os.path.basename(d), cut((m.get('summary') or '').replace('|', '\\|').replace('\n', ' '), 230), cut((m.get('needs') or '').replace('|', '\\|').replace('\n', ' '), 200), v, ', '.join(checks) or '(see meta.json)'))
 
